@@ -50,7 +50,21 @@ type rich struct {
 	K map[string]stdjson.Number
 }
 
+// fields with the ",string" option (the decoder rewrites quoted numbers before parsing them)
+type strOpts struct {
+	I int            `json:"i,string"`
+	U uint8          `json:"u,string"`
+	F float64        `json:"f,string"`
+	B bool           `json:"b,string"`
+	S string         `json:"s,string"`
+	P *int64         `json:"p,string"`
+	M map[string]int `json:"m"`
+}
+
 var targets = []func() any{
+	func() any { return new(strOpts) },
+	func() any { return new([]strOpts) },
+	func() any { return new(map[int]string) },
 	func() any { return new(rich) },
 	func() any { return new(map[string]any) },
 	func() any { return new([]any) },
@@ -99,7 +113,11 @@ func dump(sb *hw, v reflect.Value, depth int) {
 		keys := v.MapKeys()
 		ks := make([]string, len(keys))
 		for i, k := range keys {
-			ks[i] = fmt.Sprintf("%x", k.String())
+			if k.Kind() == reflect.String {
+				ks[i] = fmt.Sprintf("%x", k.String())
+			} else {
+				ks[i] = fmt.Sprint(k.Interface())
+			}
 		}
 		// order independent: sort by key content
 		idx := make([]int, len(keys))
@@ -213,7 +231,9 @@ func spanOf(b []byte) span {
 	return span{p, p + uintptr(cap(b))}
 }
 
-func (a span) overlaps(b span) bool { return a.lo < b.hi && b.lo < a.hi && a.lo != a.hi && b.lo != b.hi }
+func (a span) overlaps(b span) bool {
+	return a.lo < b.hi && b.lo < a.hi && a.lo != a.hi && b.lo != b.hi
+}
 
 // ------------------------------------------------------------------ the model
 
